@@ -194,7 +194,7 @@ func (in *c03Instance) observed() string {
 		if !ok {
 			who = "?"
 		}
-		per[e.Ev.Metadata.AuditID] = append(per[e.Ev.Metadata.AuditID], fmt.Sprintf("%d@%s", evIndexOf(e.Ev.LoggedAt), who))
+		per[e.Ev.Metadata.AuditID] = append(per[e.Ev.Metadata.AuditID], fmt.Sprintf("%d@%s", opIndexOf(e.Ev.LoggedAt), who))
 	}
 	return outcomeKey(per)
 }
